@@ -11,3 +11,9 @@ def plans(tier):
     sim = [dict(cfg="A", depth=10, maxtime=5, alpha=["cer", "dwr", "dwa", "dpr", "dpa", "req", "ans", "ureq"], num=400 if th else 60, maxconn=3),
            dict(cfg="C", depth=10, maxtime=6, alpha=["cer", "cea", "dwr", "dwa", "dpr", "dpa", "req", "ans", "ureq"], num=400 if th else 60, maxconn=4)]
     return mc, sim
+
+
+def enum_plans(tier):
+    th = tier == "thorough"
+    # two connections, the same identifiers in flight on both, answers submitted in every order
+    return [dict(cfg="HOLD2", depth=8 if th else 7, maxtime=0, alpha=["cerok", "req1"], faults=False, maxconn=2)]
